@@ -944,7 +944,7 @@ package flags
 //@ assumed func bufio.Reader.ReadLine(b *bufio.Reader) (line []byte, isPrefix bool, err error)
 //@   traced
 //@   ensures ncalls(bufio.Reader.ReadLine) <= readBound(b)
-//@   ensures is(err, *Error) ==> as(err, *Error) != nil
+//@   ensures !is(err, *Error) && !is(err, *IniError)
 //@ assumed func strings.SplitN(s string, sep string, n int) (r []string)
 //@   pure
 //@   ensures len(r) >= 1 && (n > 0 ==> len(r) <= n)
@@ -958,7 +958,7 @@ package flags
 //@   loop 1 decreases readBound(reader) - ncalls(bufio.Reader.ReadLine)
 //@   ensures[C14] err != nil ==> s == ""
 //@   ensures[C14] ncalls(bufio.Reader.ReadLine) > old(ncalls(bufio.Reader.ReadLine)) && ncalls(bufio.Reader.ReadLine) <= readBound(reader)
-//@   ensures is(err, *Error) ==> as(err, *Error) != nil
+//@   ensures !is(err, *Error) && !is(err, *IniError)
 
 //@ func readIni(contents io.Reader, filename string) (r *ini, err error)
 //@   props C14 C04
